@@ -252,7 +252,7 @@ theorem loadtxtNum_big {ν : Type} (parse : Token → Option ν) (round : ν →
   exact shapeTable_mat false _ m (by simpa using hN) hm (by
     intro r hr; obtain ⟨r', hr', rfl⟩ := List.mem_map.1 hr; simpa using hrect r' hr')
 
-/-! ### `ndmin=2`: no squeeze (F16) -/
+/-! ### `ndmin=2`: no squeeze (F18) -/
 
 /-- a rectangular table of writable tokens: any number `N ≥ 0` of rows, each of `m` good tokens
 (`m ≥ 1` as soon as there is a row, by `GoodRow`) -/
